@@ -188,7 +188,7 @@ def sdBody (s : St) : List St :=
   | .waitMid prev todo =>
     if s.wgc prev = 0 then
       match todo with
-      | [] => [{ s with sd := .loop prev [] }]
+      | [] => [{ s with sd := .waitLast prev }]   -- (not reachable: `waitMid` is only entered with a head)
       -- `prevPriority = worker.shutdownOrder`, then the head is cancelled (re-examining it in `loop` has
       -- exactly that effect: its order is not below the new `prev`)
       | h :: rest => [{ s with sd := .loop (ordOf s h) (h :: rest) }]
